@@ -28,7 +28,7 @@ Skeleton(f) ==
 C01Env ==
   /\ Check("compact_wellformed_namespace_valid_skeleton", Skeleton(Ev.c01.c))
   /\ Check("pretty_wellformed_namespace_valid_skeleton", Skeleton(Ev.c01.p))
-PlainDefaultClasses == {"p", "lt", "gt", "amp", "quot", "apos", "sp", "entity", "dollar", "astral", "rtl", "numref", "tag", "pi", "zwnj", "rlm", "zwsp"}
+PlainDefaultClasses == {"p", "lt", "gt", "amp", "quot", "apos", "sp", "entity", "dollar", "astral", "rtl", "numref", "tag", "pi", "zwnj", "rlm", "zwsp", "pct"}
 C06Env ==
   /\ Check("compact_parses", Ev.c01.c.parse_ok)
   /\ Check("text_recovered_from_its_place",
